@@ -30,6 +30,7 @@ def inline_silent_rules(expr: Expression, rules: Mapping[str, Rule]) -> Expressi
     """Inline silent rules."""
     if isinstance(expr, Identifier):
         rule = rules[expr.value]
-        if rule.modifier & SILENT:
+        # A tagged reference must keep its tag for the pairs the rule produces.
+        if rule.modifier & SILENT and not expr.tag:
             return rule.expression
     return expr
